@@ -6,3 +6,5 @@ import DfolsVerif.Proofs.ModelKopt
 import DfolsVerif.Proofs.ModelObj
 import DfolsVerif.Proofs.RunningMean
 import DfolsVerif.Properties.C17
+import DfolsVerif.Driver.Proto
+import DfolsVerif.Driver.ModelDrv
